@@ -11,7 +11,8 @@ from .spell import spell, checked_pools
 GAPK = ('ws', 'nl', 'cmt1', 'cmtm')
 
 
-def lockstep_cfg(allow, depth, maxlen=100000, emit=False, view=True, inv=True, softlen=None, minlen=0):
+def lockstep_cfg(allow, depth, maxlen=100000, emit=False, view=True, inv=True, softlen=None, minlen=0,
+                 reset_complete=True, fresh=False):
     return """SPECIFICATION Spec
 CONSTANTS
   Allow = {%s}
@@ -20,13 +21,15 @@ CONSTANTS
   SoftLen = %d
   MinLen = %d
   Emit = %s
+  ResetComplete = %s
 %s
 CONSTRAINT Bound
 %s
 INVARIANT PrintDone
 """ % (', '.join('"%s"' % a for a in sorted(allow)), depth, maxlen,
        softlen if softlen is not None else maxlen, minlen,
-       'TRUE' if emit else 'FALSE', 'INVARIANT PrintBad' if inv else '', 'VIEW View' if view else '')
+       'TRUE' if emit else 'FALSE', 'TRUE' if reset_complete else 'FALSE',
+       ('INVARIANT PrintBad' if inv else '') + ('\nINVARIANT FreshAgrees' if fresh else ''), 'VIEW View' if view else '')
 
 
 def model_check(ctx, allow, depth, label):
@@ -149,3 +152,31 @@ def replay_tok(pid, rec):
         return 1
     print('replay passes on the current tree (annotation %s)' % ('applied' if tr['annotated'] else 'not applicable: tokens changed'))
     return 0
+
+
+PROBES = [
+    [('name', 'other', False), ('semi', 'semi', True), ('name', 'other', False), ('semi', 'semi', True)],
+    [('begin', 'begin', False), ('semi', 'semi', True), ('name', 'other', False), ('semi', 'semi', True),
+     ('dml', 'kw', False), ('lp', 'lp', False), ('semi', 'semi', False), ('rp', 'rp', False), ('semi', 'semi', True),
+     ('name', 'other', False)],
+    [('dml', 'kw', False), ('case', 'case', False), ('when', 'kw', False), ('name', 'other', False), ('end', 'end', False),
+     ('semi', 'semi', True), ('if', 'if', False), ('name', 'other', False), ('semi', 'semi', True),
+     ('name', 'other', False), ('semi', 'semi', True)],
+]
+
+
+def with_probe(hist, i):
+    """append a fixed plain follow-up script (abstract tokens) that exposes state
+    leaking out of the statements before it"""
+    p = PROBES[i % len(PROBES)]
+    return list(hist) + [{'k': k, 'lab': lab, 'fin': fin} for lab, k, fin in p]
+
+
+def cover_scripts(ctx, allow, depth, label, transitions=False):
+    """state cover (or transition cover) of the lock-step product graph, each
+    completed to a well-formed script by ScriptGen!Closure"""
+    cfg = lockstep_cfg(allow, depth, inv=False)
+    cfg = cfg.replace('INVARIANT PrintDone', 'ACTION_CONSTRAINT PrintTransCover' if transitions else 'INVARIANT PrintStateCover')
+    res = tlc.run(ctx.workdir, 'SplitLockstep', cfg, workers=1, timeout=900, label=label, coverage=False)
+    ctx.add_tlc(res, label + (' transition cover' if transitions else ' state cover'))
+    return res.printed
